@@ -51,6 +51,31 @@ type CtxPlan struct {
 	Spin int `json:"spin,omitempty"`
 }
 
+// hookCtx is a context whose methods are control points: the simulator may
+// act (cancel, yield) at the moment the code under test consults its context.
+type hookCtx struct {
+	context.Context
+	onCall func(method string)
+}
+
+func (h *hookCtx) Err() error {
+	e := h.Context.Err()
+	h.onCall("Err")
+	return e
+}
+
+func (h *hookCtx) Done() <-chan struct{} {
+	d := h.Context.Done()
+	h.onCall("Done")
+	return d
+}
+
+func (h *hookCtx) Deadline() (time.Time, bool) {
+	d, ok := h.Context.Deadline()
+	h.onCall("Deadline")
+	return d, ok
+}
+
 func executeCtx(t *testing.T, prop string, seed uint64, p *CtxPlan) *core.Result {
 	res := &core.Result{Arbitrated: true}
 	cryptotest.SetGlobalRandom(t, seed)
@@ -182,6 +207,25 @@ func executeCtx(t *testing.T, prop string, seed uint64, p *CtxPlan) *core.Result
 					if int(fc.In().Delivered()) >= len(rec) && !fired.Load() {
 						endedDuring = true
 						releaseAsync()
+					}
+				}
+			} else if p.InRead == "cancel-on-ctx-call" {
+				// once the hello has been handed over, the context ends at the very
+				// moment NewConn next consults it (right after that call's answer)
+				var armed, fired atomic.Bool
+				inner, innerCancel := ctx, cancel
+				ctx = &hookCtx{Context: inner, onCall: func(string) {
+					if armed.Load() && !fired.Swap(true) {
+						endedDuring = true
+						innerCancel()
+						for i := 0; i < 50; i++ {
+							runtime.Gosched()
+						}
+					}
+				}}
+				fc.ReadHook = func(avail int) {
+					if int(fc.In().Delivered()) >= len(rec) {
+						armed.Store(true)
 					}
 				}
 			} else if p.InRead != "none" {
@@ -347,7 +391,7 @@ func genC10(seed uint64, idx int) *Plan {
 		c.After = "timeout-after"
 		c.DelayUs = r.IntN(1000)
 	case 5:
-		c.InRead = []string{"cancel", "cancel-gosched", "cancel-async", "cancel-async"}[r.IntN(4)]
+		c.InRead = []string{"cancel", "cancel-gosched", "cancel-async", "cancel-on-ctx-call", "cancel-on-ctx-call"}[r.IntN(5)]
 		c.After = []string{"none", "cancel"}[r.IntN(2)]
 		c.SlowDeadline = []int{0, 10, 200}[r.IntN(3)]
 		if c.InRead == "cancel-async" {
